@@ -127,6 +127,10 @@ def run_check(prop, tier, seed, args):
             unknown.append(v)
     for kid, (e, n) in sorted(seen_known.items()):
         print(f"KNOWN-FINDING: property={prop} {kid} {e['what']} (re-observed {n}x in this run)")
+    summary = collections.Counter(
+        (v["class"], tuple(v["record"]["features"])) for v in unknown)
+    for (cls_, feats), n in summary.most_common(12):
+        print(f"unknown-summary n={n} class={cls_} features={list(feats)}")
     written = set()
     for v in unknown:
         key = json.dumps(v["record"], sort_keys=True)
@@ -149,6 +153,8 @@ def run_check(prop, tier, seed, args):
 def absorb(agg, per, r):
     agg["runs"] += 1
     per["runs"] += 1
+    agg["stats"]["executions"] += r.get("execs", 1)
+    per["stats"]["executions"] += r.get("execs", 1)
     st = r["stats"]
     for k, v in st.items():
         if isinstance(v, int):
